@@ -171,7 +171,8 @@ class P(Prop):
     open_statements = ["theorems are over a linearly ordered field: IEEE rounding of the float computation is outside them (sampled by the transfer check at 1e-9)",
                        "the kernel functions using math.exp / math.pow (Gaussian, Exponential, Cubic, Spheric) are a function parameter: window_shape / window_nonneg "
                        "apply to them under the stated hypotheses (even, non-negative at the sample points, positive at 0), which are not proved for libm",
-                       "zero-norm behaviour for weight lists (numpy yields nan/inf instead of raising) is not modelled; the model reports err:zerodiv in every zero-norm case"]
+                       "a weight list containing zero weights whose valid weights sum to 0 (numpy then yields nan/inf instead of raising) is not modelled; with positive weights a zero norm means no valid sample and both sides raise",
+                       "a kernel given as the name of an analytical feature (str) is not modelled"]
     modelled = ("Filter.execute (kernel preparation for weight lists / Kernel objects / Dirac, odd-window test, window index i-j+D, "
                 "skipping out-of-track and NaN samples, division by the collected norm, boundary copy), Kernel.evaluate and "
                 "Kernel.toSlidingWindow, the kernel functions of UniformKernel/TriangularKernel/EpanechnikovKernel (the other "
@@ -185,7 +186,8 @@ class P(Prop):
             "non-negative kernels Uniform/Triangular/Epanechnikov/Gaussian/Exponential/Cubic/Spheric/Dirac with widths 1..5 and "
             "some non-integer widths, both boundary settings; features via track.operate(FILTER), x/y/z and features via filter_seq, "
             "Track.smooth, Kernel.toSlidingWindow. All signals over {0,1,NaN} up to length 6 (quick) / 7 (thorough) for three kernels. Cases outside the "
-            "property's domain (a window without valid weight) are kept only in the stream 'zeronorm'. non-trivial = window of "
+            "property's domain are kept in two correspondence-only streams: 'zeronorm' (a window without valid weight: ZeroDivisionError on both sides) and "
+            "'short' (signals shorter than the window, IndexError when shorter than the half window and boundaries are copied). non-trivial = window of "
             "at least 3 weights and a non-constant signal (or a sliding-window case)")
 
     def setup(self):
@@ -336,6 +338,28 @@ class P(Prop):
             v = self.rand_signal(rng, n, nan=False)
             v[rng.randrange(n)] = None
             out.append({"kind": "zeronorm", "sig": v, "k": k, "sc": "r"})
+        # ---- outside the domain: a positive weight list whose window holds no valid sample at all
+        for _ in range(40 if quick else 400):
+            w = self.rand_weights(rng)
+            n = len(w) + rng.randrange(0, 5)
+            v = self.rand_signal(rng, n, nan=False)
+            a = rng.randrange(n)
+            for i in range(a, min(n, a + len(w))):
+                v[i] = None
+            if not domain_ok([Fraction(x) for x in w], v):
+                out.append({"kind": "zeronorm", "sig": v, "k": {"t": "list", "w": w}, "sc": "r"})
+        # ---- outside the quantifier: signals shorter than the window (correspondence only; IndexError when the
+        #      track is shorter than the half window and boundaries are copied)
+        made = 0
+        while made < (300 if quick else 3000):
+            k = self.rand_kernel(rng)
+            N = len(shape_weights(k))
+            if N < 3:
+                continue
+            n = rng.randrange(1, N)
+            sc = self.pick_scalar(rng, k)
+            out.append({"kind": "short", "sig": self.rand_signal(rng, n, nan=(rng.random() < 0.3), floats=(sc == "f")), "k": k, "sc": sc})
+            made += 1
         return out
 
     def pick_scalar(self, rng, k):
@@ -360,7 +384,7 @@ class P(Prop):
     def nontrivial(self, case):
         if case["kind"] == "sw":
             return True
-        if case["kind"] == "zeronorm":
+        if case["kind"] in ("zeronorm", "short"):
             return False
         k = case.get("k", {"t": "gaussian", "p": case.get("w")})
         if len(shape_weights(k)) < 3:
@@ -403,7 +427,7 @@ class P(Prop):
         kind = case["kind"]
         if kind == "sw":
             return {"window": self.window_of(case["k"])}
-        if kind in ("feat", "zeronorm"):
+        if kind in ("feat", "zeronorm", "short"):
             v = case["sig"]
             t = self.mk_track([float(i) for i in range(len(v))])
             t.createAnalyticalFeature("a", [num(a) for a in v])
@@ -460,7 +484,7 @@ class P(Prop):
         kind, sc = case["kind"], case["sc"]
         if kind == "sw":
             return ["C15.sw %s %s" % (sc, self.kspec(sc, case["k"]))]
-        if kind in ("feat", "zeronorm"):
+        if kind in ("feat", "zeronorm", "short"):
             k = case["k"]
             ls = ["C15.exec %s %s %s" % (sc, self.sig_tok(sc, case["sig"]), self.kspec(sc, k))]
             if k["t"] not in ("list", "int", "dirac"):
@@ -504,7 +528,7 @@ class P(Prop):
         r = replies[0].split(" ")
         if r[0] != "ok":
             return {"err": r[0]}
-        if kind in ("feat", "zeronorm"):
+        if kind in ("feat", "zeronorm", "short"):
             out = self.vals(sc, r[2])
             return {"out": out, "ret": out, "kafter": None if r[1] == "none" else self.vals(sc, r[1]),
                     "input_after": [canon(num(a)) for a in case["sig"]], "window": self.decode_window(case, case["k"], replies)}
@@ -537,8 +561,8 @@ class P(Prop):
 
     def spec(self, case, out):
         kind = case["kind"]
-        if kind == "zeronorm":
-            return None  # outside the domain of the property (a window without valid weight)
+        if kind in ("zeronorm", "short"):
+            return None  # outside the domain of the property (a window without valid weight / a signal shorter than the window)
         if "err" in out:
             return "raised %s (%s)" % (out["err"], out.get("detail", ""))
         if kind == "sw":
@@ -570,7 +594,7 @@ class P(Prop):
 
     # ---------------------------------------------------------------- shrinking / search
     def _sig_names(self, case):
-        return ["sig"] if case["kind"] in ("feat", "zeronorm") else ["x", "y", "z"]
+        return ["sig"] if case["kind"] in ("feat", "zeronorm", "short") else ["x", "y", "z"]
 
     def shrink(self, case):
         if case["kind"] == "sw":
@@ -619,7 +643,7 @@ class P(Prop):
             yield dict(case, sc="r")
 
     def _in_domain(self, case):
-        if case["kind"] == "zeronorm":
+        if case["kind"] in ("zeronorm", "short"):
             return True
         k = case.get("k", {"t": "gaussian", "p": case.get("w")})
         w = shape_weights(k)
